@@ -22,6 +22,9 @@ import TdVerif.Lemmas.C08Apply
 import TdVerif.Lemmas.C08Reduce
 import TdVerif.Lemmas.C08Resize
 import TdVerif.Lemmas.C08Shape2
+import TdVerif.Lemmas.C08Squeeze2
+import TdVerif.Lemmas.C08View
+import TdVerif.Lemmas.C08UpdateAt
 import TdVerif.Lemmas.C08Out
 import TdVerif.Lemmas.C08Out2
 import TdVerif.Lemmas.C08Out3
@@ -268,6 +271,27 @@ theorem setitem_write_through [Inhabited α] (L : Lazy α) (b : Shape) (keys : L
     L'.sd = L.sd ∧ Uniform L' b keys feat ∧ L'.members.length = L.members.length ∧
     ∀ k ∈ keys, IsSetT ix ((absL L).leaf k) (v.leaf k) ((absL L').leaf k) :=
   setitem_refines_core L b keys feat hU hne0 ix hp hne hadv hnd hdist v hvk hvl bd hbd L' h
+
+/-- **`lazy.update_at_(v, index)`** (its own transcription `lazyUpdateAt`: `_split_index`, then the
+member-wise `update_at_` of the unbound pieces, or the key-by-key `set_at_` path for a mask / an
+integer tensor on the stack dim): for a value of the indexed batch size it performs exactly the
+writes of `lazy[index] = v`, hence the dense stack of the members afterwards is `IsSetT` of the one
+before (the statement of `setitem_write_through`, Ellipsis expanded by `_split_index`). -/
+theorem update_at_write_through [Inhabited α] (L : Lazy α) (b : Shape) (keys : List String)
+    (feat : String → Shape) (hU : Uniform L b keys feat) (hne0 : L.members ≠ []) (ix0 ix : List Ix)
+    (hix : convertEllipsis ix0 L.batch.length = some ix)
+    (hp : Plain L.sd ix) (hne : ∀ it ∈ ix, it ≠ Ix.ell) (hadv : AtMostOneAdv ix)
+    (hnd : NoDupTargets (splitRec L.sd ix).out)
+    (hdist : ∀ t, (splitRec L.sd ix).item = some (.tens t) → ∃ k, t.shape = [k] ∧
+      ∀ j j', j < k → j' < k →
+        normInt (t.get [j]) L.members.length = normInt (t.get [j']) L.members.length → j = j')
+    (v : TD α) (hvk : v.keys = keys) (hvl : ∀ k ∈ keys, (v.leaf k).shape = v.batch ++ feat k)
+    (hbd : idxShape ix (absL L).batch = some v.batch)
+    (L' : Lazy α) (h : lazyUpdateAt L ix0 v = some L') :
+    L'.sd = L.sd ∧ Uniform L' b keys feat ∧ L'.members.length = L.members.length ∧
+    ∀ k ∈ keys, IsSetT ix ((absL L).leaf k) (v.leaf k) ((absL L').leaf k) :=
+  setitem_refines_core L b keys feat hU hne0 ix hp hne hadv hnd hdist v hvk hvl v.batch hbd L'
+    (lazyUpdateAt_eq_set L ix0 ix v hix hbd L' h)
 
 /-- **Writes with a rank-1 boolean mask on the stack dim** (`lazy[…, mask, …] = v`): the members
 the mask keeps receive, in order, the successive slices of the value along
@@ -553,6 +577,34 @@ theorem stack_refines_dense [Inhabited α] (Ls : List (Lazy α)) (b : Shape) (ke
       absL L' ≈ stackTD (Ls.map absL) d :=
   stack_refines Ls b keys feat n hn hU hlen dim L' h
 
+/-! ## view / reshape / flatten -/
+
+/-- **`lazy.view(shape)` / `reshape(shape)` / `flatten(start, end)` when `shape` merges consecutive
+batch dims `i … i+m-1`** (the flatten branch of `_view`; the dims are found by `_check_is_flatten`):
+the loop unbinds along `i` once per merged dim — lazy stacks before the stack dim has been unbound,
+plain tensordicts afterwards — and stacks the pieces lazily along `i`; whatever the position of
+the stack dim relative to the merged dims, the result materialises to the dense stack with every
+entry flattened over these dims (`T.flattenAt` = torch's `reshape`), and has batch size `shape`.
+All merged and other dims non-empty (`0 < numel batch`). -/
+theorem view_flatten_is_dense [Inhabited α] (L : Lazy α) (b : Shape) (keys : List String) (feat : String → Shape)
+    (hU : Uniform L b keys feat) (hne0 : L.members ≠ []) (hpos : 0 < numel L.batch)
+    (shape : Shape) (r : LRes2 α) (h : lazyView L shape = some r) :
+    ∃ i m, 1 ≤ m ∧ i + m ≤ L.batch.length ∧
+      shape = L.batch.take i ++ [numel ((L.batch.drop i).take m)] ++ L.batch.drop (i + m) ∧
+      absR2 r ≈ (absL L).mapLeaves shape (fun t => t.flattenAt i m) :=
+  view_flatten_refines L b keys feat hU hne0 hpos shape r h
+
+/-- the pieces of the flatten loop, one level down: `n + 1` rounds of `unbind(i)` return, in
+row-major order, as many pieces as the dims `i … i+n` have positions, each a plain tensordict or a
+non-empty uniform lazy stack of the remaining batch size -/
+theorem view_flatten_pieces [Inhabited α] (L : Lazy α) (b : Shape) (keys : List String) (feat : String → Shape)
+    (hU : Uniform L b keys feat) (hne0 : L.members ≠ []) (i n : Nat) (hle : i + (n + 1) ≤ L.batch.length)
+    (hpos : 0 < numel ((L.batch.drop i).take (n + 1))) :
+    (iterUnbindR (.lazy L) i (n + 1)).length = numel ((L.batch.drop i).take (n + 1)) ∧
+    ∀ x ∈ iterUnbindR (.lazy L) i (n + 1), GoodR (L.batch.take i ++ L.batch.drop (i + (n + 1))) keys feat x :=
+  let h := flatten_pieces keys feat i n (.lazy L) L.batch ⟨⟨b, hU⟩, hne0, rfl⟩ hle hpos
+  ⟨h.1, h.2.1⟩
+
 /-! ## cat / stack with `out=<lazy stack>` -/
 
 /-- **`torch.cat([L1, …, Lk], dim, out=O)` along the common stack dim of the operands and of `O`**
@@ -828,6 +880,19 @@ theorem unsqueeze_stack_of_stacks [Inhabited α] (Lo : Lazy2 α) (bIn : Shape) (
     ∃ d : Nat, (d : Int) = (if dim < 0 then (Lo.batch.length : Int) + dim + 1 else dim) ∧
       d ≤ Lo.batch.length ∧ abs2 Lo' ≈ (abs2 Lo).unsqueeze d :=
   unsqueeze2_refines Lo bIn keys feat sdIn nIn hU hne0 dim Lo' h
+
+/-- **`squeeze(dim)` on a stack of stacks**: a non-singleton dim returns the stack itself, the
+singleton outer stack dim returns the only inner stack, any other singleton dim is squeezed inside
+the inner stacks by their own `_squeeze` (which returns their only MEMBER when it is their stack dim:
+the result is then a one-level stack) and the results are stacked again, the outer stack dim shifted
+when the squeezed dim lies before it; in every case the result materialises to
+`dense_of_dense.squeeze(dim)`. -/
+theorem squeeze_stack_of_stacks [Inhabited α] (Lo : Lazy2 α) (bIn : Shape) (keys : List String) (feat : String → Shape)
+    (sdIn nIn : Nat) (hU : Uniform2 Lo bIn keys feat sdIn nIn) (hne0 : Lo.members ≠ []) (dim : Int)
+    (r : LRes2 α) (h : lazySqueeze2 Lo dim = some r) :
+    ∃ d : Nat, (d : Int) = (if dim < 0 then (Lo.batch.length : Int) + dim else dim) ∧
+      d < Lo.batch.length ∧ absR2 r ≈ (abs2 Lo).squeezeDim d :=
+  squeeze2_refines Lo bIn keys feat sdIn nIn hU hne0 dim r h
 
 /-- **`permute` on a stack of stacks** (every permutation of the batch dims, any sign spelling):
 the inner stacks are permuted by the remaining dims renumbered — with their own `_permute`, which
